@@ -49,7 +49,9 @@ FAULTS = [
 ]
 
 FILLERS = ["", "", "   ", "# comment", "#", "# @assert false", "uint8 f{n}", "bool g{n}", "void3", "int16 C{n} = -5", "@assert true",
-           "@assert 'multi\nline' != ''", "@assert \"a\n\nb\" != 'x'", "uint8[<=3] h{n}  # trailing", "float32 k{n}"]
+           "@assert 'multi\nline' != ''", "@assert \"a\n\nb\" != 'x'", "uint8[<=3] h{n}  # trailing", "float32 k{n}",
+           # escaped line feeds occupy no line of the file
+           "@assert 'esc\\naped' != ''", "@assert \"two\\n\\u000Aescapes\" != '' # \\n in a comment too", "@assert '\\U0000000a' + '\\r' != ''"]
 
 
 def build_text(rng, special_lines, refs, crlf, n_before=None, service=False):
